@@ -989,6 +989,14 @@ class Bada3FuelBurnModel(BaseFuelBurnModel):
 
             mass[0] = initial_mass
 
+            # The rest of the profile was integrated from the previous initial
+            # mass: integrate again from the new one, so that the profile
+            # (also the one returned below) is consistent with its own first
+            # point.
+            mass = self.update_mass_vector(
+                mass, specific_ground_range, segment_distance
+            )
+
             final_mass_pct_change = (
                 np.abs(mass[-1] - old_final_mass) / old_final_mass
             ) * 100
@@ -1106,6 +1114,14 @@ class Bada3FuelBurnModel(BaseFuelBurnModel):
             )
 
             mass[0] = initial_mass
+
+            # The rest of the profile was integrated from the previous initial
+            # mass: integrate again from the new one, so that the profile
+            # (also the one returned below) is consistent with its own first
+            # point.
+            mass = self.update_mass_vector(
+                mass, specific_ground_range, segment_distance
+            )
 
             final_mass_pct_change = (
                 np.abs(mass[-1] - old_final_mass) / old_final_mass
